@@ -57,6 +57,9 @@ type psConn struct {
 	encKey        [32]byte
 	recA, recM1   []byte // A and proof of the last ACCEPTED verify on this connection, as sent
 	recM5         []byte // encrypted-data item of the last key exchange sent on this connection
+	// a complete ACCEPTED exchange on this connection as an eavesdropper recorded it: A, proof, key-exchange box
+	tapA, tapM1, tapM5 []byte
+	lastBox            []byte
 	sentA, sentM1 []byte
 }
 
@@ -168,6 +171,13 @@ func (w *psWorld) build(conns map[string]*psConn, name string, cs *psConn, m psM
 			if proof == nil {
 				return nil, "no accepted exchange on another connection to replay"
 			}
+		case "replay_same":
+			// byte-for-byte replay of the verify message of the exchange that was accepted earlier on this very connection
+			if cs.tapA == nil {
+				return nil, "no accepted exchange on this connection to replay"
+			}
+			t.Add(ref.TagPublicKey, cs.tapA)
+			proof = cs.tapM1
 		case "good":
 			cl := ref.NewSRPClient("Pair-Setup", ref.FormatPin(w.pin), rndFunc(w.rng))
 			t.Add(ref.TagPublicKey, cl.Abytes)
@@ -261,7 +271,15 @@ func (w *psWorld) build(conns map[string]*psConn, name string, cs *psConn, m psM
 				}
 			}
 		}
-		box := ref.Seal(key, []byte("PS-Msg05"), inner, nil)
+		var box []byte
+		if m.Seal == "recorded" {
+			if cs.tapM5 == nil {
+				return nil, "no accepted key exchange on this connection to replay"
+			}
+			box = append([]byte{}, cs.tapM5...)
+		} else {
+			box = ref.Seal(key, []byte("PS-Msg05"), inner, nil)
+		}
 		if m.Seal == "other" && m.Body == "genuine" {
 			// prefer the very bytes another connection sent in its own key exchange
 			for n, o := range conns {
@@ -286,6 +304,7 @@ func (w *psWorld) build(conns map[string]*psConn, name string, cs *psConn, m psM
 		}
 		t.AddByte(ref.TagState, 5)
 		t.Add(ref.TagEncrypted, box)
+		cs.lastBox = append([]byte{}, box...)
 	default:
 		return nil, "unknown message type " + m.T
 	}
@@ -359,6 +378,9 @@ func (w *psWorld) runWord(b Beh, tr *Tracer) error {
 					if box, ok := t.Get(ref.TagEncrypted); ok && cs.holds {
 						if _, err := ref.Open(cs.encKey[:], []byte("PS-Msg06"), box, nil); err == nil {
 							o["m6ok"] = true
+							if st.M.Seal == "this" && cs.recA != nil {
+								cs.tapA, cs.tapM1, cs.tapM5 = cs.recA, cs.recM1, cs.lastBox
+							}
 						}
 					}
 				}
